@@ -282,7 +282,26 @@ def call_method(ip, recv, name, args, kw):
                 return join_bytes(ip, lst)
             n = lst.concrete_len()
             if n is None:
-                raise Unsupported('join with separator over symbolic list')
+                # symbolic number of items: the result is an abstract byte string; what is known about it is its provenance
+                # (separator and list, recorded for the contracts) and its length
+                used(ip, 'sep.join(items): the items in order, separated by sep')
+                jid = st.fresh_id('sjoin')
+                csum = Function('sjsum_' + jid, I, I)
+                k = fresh('jk')
+                ek = lst.at(k)
+                if not ip.is_byteslike(ek):
+                    raise PyRaise(ExcVal(TypeError, tag='join-nonbytes'))
+                ekb = ip.bytes_of(ek)
+                st.hyps.append(csum(IntVal(0)) == 0)
+                st.hyps.append(ForAll([k], Implies(And(k >= 0, k < lst.n), And(csum(k + 1) == csum(k) + ekb.n + If(k + 1 < lst.n, b.n, 0), ekb.n >= 0)),
+                                      patterns=[csum(k + 1)]))
+                nm = sval.FRESH.name('sjoined')
+                res = SBytes.sym(nm)
+                st.hyps.append(res.wf())
+                st.assume(res.n == csum(lst.n))
+                res.meta = dict(join=jid)
+                st.ghost.setdefault('sep_joins', []).append((b, lst, res))
+                return res
             parts = []
             for j in range(n):
                 if j:
@@ -426,6 +445,12 @@ def str_method(ip, s, name, args, kw):
                 return SStr(fresh('strfmt', Str), parts=parts)
         used(ip, 'str.format: returns some str (content not modelled)')
         return SStr(fresh('fmt', Str))
+    if name == 'join' and len(args) == 1:
+        lst = iter_values(ip, args[0])
+        used(ip, "str.join: the items' text separated by the separator (uninterpreted function of separator and list)")
+        r = SStr(fresh('strjoin', Str))
+        st.ghost.setdefault('strjoins', []).append((s, lst, r))
+        return r
     if name == 'lower':
         if s.text is not None:
             return SStr.lit(s.text.lower())
